@@ -60,14 +60,14 @@ ASSUME = [
 def check_C11(tier, seed):
     out = Outcome("C11", tier, seed)
     if tier == "quick":
-        models = [tab_model("import", 3, 0, ALL_STYLES), tab_model("export", 3, 0, ALL_STYLES), tab_model("import", 1, 2, {1, 2, 8}),
-                  tab_model("import", 2, 1, {1, 2})]
+        models = [tab_model("import", 3, 0, ALL_STYLES), tab_model("export", 3, 0, ALL_STYLES), tab_model("import", 1, 2, {1, 2, 3, 8}),
+                  tab_model("import", 2, 1, {1, 2, 3, 7})]
     else:
         models = [tab_model("import", 4, 0, ALL_STYLES, 4), tab_model("export", 4, 0, ALL_STYLES, 4), tab_model("import", 2, 1, ALL_STYLES)]
     run_tables(out, "C11", models)
     # the round-trip clause on large instances (hundreds of items per dimension)
-    cases = [(201, 3, 0), (130, 2, 1), (40, 140, 0), (33000, 2, 0)] if tier == "quick" else \
-        [(201, 3, 0), (130, 2, 1), (40, 140, 0), (33000, 2, 0), (300, 5, 1), (2, 400, 0), (260, 130, 1), (2, 70000, 1)]
+    cases = [(201, 3, 0), (130, 2, 1), (40, 140, 0), (33000, 2, 0), (160, 6, 0), (128, 1, 1)] if tier == "quick" else \
+        [(201, 3, 0), (130, 2, 1), (40, 140, 0), (33000, 2, 0), (160, 6, 0), (128, 1, 1), (300, 5, 1), (2, 400, 0), (260, 130, 1), (2, 70000, 1), (256, 4, 0)]
     bad = core.replay_parallel(replay_tables.run_large_roundtrip, cases)
     out.replayed += len(cases)
     out.extra["large_instance_roundtrips"] = len(cases)
